@@ -358,3 +358,27 @@ Proof.
   intros r Hr. specialize (H r Hr). apply andb_true_iff in H. destruct H as [A B].
   apply andb_true_iff. split; [apply table_ok_weak; exact A | exact B].
 Qed.
+
+(* ------------------------------------------------------------------------------------------ *)
+(* no usable route through a non-neighbour, as an executable predicate                        *)
+(* ------------------------------------------------------------------------------------------ *)
+Lemma router_ok_hops_okb : forall r, router_ok r -> hops_okb r = true.
+Proof.
+  intros r ((Hnd & Hent) & Hh & _ & _). unfold hops_okb.
+  apply forallb_forall. intros [d e] Hde. apply forallb_forall. intros [h c] Hhc. simpl.
+  destruct (c <? INF) eqn:Ec; [|reflexivity]. simpl.
+  pose proof (in_aget _ _ _ Hnd Hde) as Ge.
+  destruct (Hent d e Ge) as [[(Hndc & _) _] _].
+  pose proof (in_aget _ _ _ Hndc Hhc) as Gc.
+  assert (Hrv : rv (rrib r) d h = c) by (unfold rv, cvE; rewrite Ge, Gc; reflexivity).
+  assert (Hlt : rv (rrib r) d h < INF) by lia.
+  destruct (Hh d h Hlt) as [Hin | [H1 H2]].
+  - apply memN_In in Hin. rewrite Hin. reflexivity.
+  - subst. rewrite !N.eqb_refl. apply orb_true_r.
+Qed.
+
+Theorem reachable_hops_okb : forall hist i ro, getr (run [] hist) i = Some ro -> hops_okb ro = true.
+Proof.
+  intros hist i ro G. destruct (run_ok hist [] net_ok_nil) as [_ Hall].
+  apply getr_some in G. apply router_ok_hops_okb. apply Hall. apply G.
+Qed.
